@@ -90,6 +90,7 @@ def base_system(b, rng):
         c['omega']['%s-%s' % (t, t)] = ['Gaussian', 1.0, int(rng.choice([4, 6, 10]))]
     c['assign'] = str(rng.choice(['pair', 'setunset', 'group']))      # the idioms users fill the tables with
     c['diam_idiom'] = str(rng.choice(['direct', 'sweep']))
+    c['num_style'] = str(rng.choice(['float', 'np', 'int']))
     return c
 
 
